@@ -170,6 +170,15 @@ def run(prop, tier):
         v.add(key=key, clause=x['clause'],
               what='configuration %d (%s) line %d fails %s %s' % (x['cid'], x['family'], x['k'], x['clause'], x['note']),
               replay={'pipeline': 'floor', 'cfg': x['cfg'], 'seed': x['seed'], 'line': x['k']})
+    ex = None
+    if prop == 'C04':
+        ex = examples_result(tier)['examples']
+        for e in ex:
+            if not (e['observed'] == e['reference_tlc'] == e['documented']):
+                v.add(key='C04:DocumentedExampleCount:%s' % e['example'], clause='C04.DocumentedExampleCount',
+                      what='%s: sink received %d parts, reference %d, documented %d'
+                           % (e['example'], e['observed'], e['reference_tlc'], e['documented']),
+                      replay={'pipeline': 'floor', 'example': e['example']})
     pool_lines = 0
     if prop == 'C15':
         # the resource-record clauses are also evaluated on the pool traces (PoolsTrace.tla, clauses C15.*)
@@ -197,6 +206,8 @@ def run(prop, tier):
                 'property observers of FloorObs.tla on every line and compares the line with the closed specification '
                 'Floor.tla; distinct_nontrivial counts configurations, evaluations counts validated trace lines',
     }
+    if ex is not None:
+        cov['documented_examples'] = ex
     d = design_result(tier)
     if d:
         cov.update(states=d['states'], transitions=d['transitions'], design=d, exhaustive=True)
@@ -272,8 +283,60 @@ def design_result(tier):
     return P.cached('floor_design', tier, lambda: _design(tier))
 
 
+# the documented serial examples: (name, devices as (kind, cycle/delay, capacity), horizon in time units, documented count)
+EXAMPLES = [
+    ('SingleProcessor', [('source', 4, -1), ('processor', 4, 1), ('sink', 0, 1)], 100, 99),
+    ('BufferExample', [('source', 0, -1), ('processor', 4, 1), ('buffer', 0, 5), ('processor', 4, 1), ('sink', 0, 1)],
+     60 * 24 * 7, 10079),
+]
+
+
+def _examples(tier):
+    """Runs the documented serial examples on the real package (plain runs, full horizon) and computes the
+    reference count with TLC (Recurrence.tla steps the max-plus recurrence part by part)."""
+    from simprocesd.model import System
+    from simprocesd.model.factory_floor import Source, PartProcessor, Buffer, Sink
+    out = []
+    for name, devs, H, documented in EXAMPLES:
+        system = System()
+        prev = None
+        sink = None
+        for kind, c, cap in devs:
+            if kind == 'source':
+                prev = Source(cycle_time=c * 0.25)
+            elif kind == 'processor':
+                prev = PartProcessor(upstream=[prev], cycle_time=c * 0.25)
+            elif kind == 'buffer':
+                prev = Buffer(upstream=[prev], minimum_delay=c * 0.25, capacity=cap)
+            else:
+                prev = sink = Sink(upstream=[prev], cycle_time=c * 0.25)
+        system.simulate(H, print_summary=False)
+        observed = sink.received_parts_count
+        mod = ('------------------------------ MODULE RecCfg ------------------------------\n'
+               'EXTENDS Integers\nCyc == %s\nCap == %s\nH == %d\nBudget == -1\n'
+               '=============================================================================\n'
+               % (C.to_tla([d[1] for d in devs]), C.to_tla([d[2] for d in devs]), H * 4))
+        stage = C.stage_specs(C.scratch('rec_' + name), {'RecCfg.tla': mod})
+        r = C.run_tlc(stage, 'Recurrence', 'Recurrence.cfg', workers=1, timeout=900, heap='2g')
+        C.tlc_machinery_ok(r, 'Recurrence ' + name)
+        ref = [t[1] for t in r.tuples('COUNT')]
+        if not ref:
+            raise C.MachineryError('Recurrence.tla printed no count for %s' % name)
+        out.append({'example': name, 'horizon': H, 'documented': documented, 'reference_tlc': ref[-1],
+                    'observed': observed, 'states': r.distinct})
+    return {'examples': out}
+
+
+def examples_result(tier):
+    return P.cached('floor_examples', tier, lambda: _examples(tier))
+
+
 def replay(sc):
     from . import floor_tracer as T
+    if sc.get('example'):
+        e = [x for x in _examples('quick')['examples'] if x['example'] == sc['example']][0]
+        bad = not (e['observed'] == e['reference_tlc'] == e['documented'])
+        return ([(1, 0, 'C04.DocumentedExampleCount')] if bad else []), None
     lines, err = T.run_cfg(1, sc['cfg'], sc.get('seed') or 0)
     stage = C.stage_specs(C.scratch('floor_replay'))
     fails, n, _ = P.validate_traces(stage, 'FloorTrace', 'FloorTrace.cfg', [lines], shards=1)
